@@ -75,7 +75,9 @@ AngOK(dir, dl)  == LET c == Cos2(dir.tolang)  dt == Dot(dl, dir.cod)
                    IN  c[2] * dt * dt >= c[1] * Dot(dl, dl) * Dot(dir.cod, dir.cod)
 AngTie(dir, dl) == LET c == Cos2(dir.tolang)  dt == Dot(dl, dir.cod)
                    IN  dir.tolang \notin {0, 90} /\ c[2] * dt * dt = c[1] * Dot(dl, dl) * Dot(dir.cod, dir.cod)
-\* squared distance to the axis = (|dl|^2 |cod|^2 - (dl.cod)^2) / |cod|^2
+\* Cylinder: the distance of the pair to the AXIS of the direction, i.e. the norm of the component of dl
+\* orthogonal to the NORMALISED direction u = cod/|cod| (DirParam does not normalise the vector the user
+\* passes, the rule must not depend on its length):  |dl|^2 - (dl.u)^2 = (|dl|^2 |cod|^2 - (dl.cod)^2) / |cod|^2
 Ortho2Num(dir, dl) == Dot(dl, dl) * Dot(dir.cod, dir.cod) - Dot(dl, dir.cod) * Dot(dl, dir.cod)
 CylOK(dir, dl)  == dir.cn = 0 \/ Ortho2Num(dir, dl) * dir.cd * dir.cd <= dir.cn * dir.cn * Dot(dir.cod, dir.cod)
 CylTie(dir, dl) == dir.cn # 0 /\ Ortho2Num(dir, dl) * dir.cd * dir.cd = dir.cn * dir.cn * Dot(dir.cod, dir.cod)
@@ -275,9 +277,14 @@ AlgoPairs(pts, dir) ==
 (* The whole expected result of one direction, as one value (sets kept as    *)
 (* sets so that two results can be compared for the laws below).             *)
 
-VarPairs(nvar) == IF nvar = 1 THEN << <<1, 1>> >> ELSE << <<1, 1>>, <<2, 1>>, <<2, 2>> >>
+\* the pairs of variables (i, j), j <= i, in the order (1,1), (2,1), (2,2), (3,1), ...  The result for
+\* (j, i) is by definition the one of (i, j) (same lags: the storage is symmetric), whichever of the
+\* two orders the reader of the result uses.
+VarPairs(nvar) == CASE nvar = 1 -> << <<1, 1>> >>
+                    [] nvar = 2 -> << <<1, 1>>, <<2, 1>>, <<2, 2>> >>
+                    [] nvar = 3 -> << <<1, 1>>, <<2, 1>>, <<2, 2>>, <<3, 1>>, <<3, 2>>, <<3, 3>> >>
 
-VarIdx(pts) == {<<1, 1>>} \cup (IF Len(pts[1].z) = 2 THEN {<<2, 1>>, <<2, 2>>} ELSE {})
+VarIdx(pts) == {ij \in (1..Len(pts[1].z)) \X (1..Len(pts[1].z)) : ij[2] <= ij[1]}
 SymResultG(pts, dir, G) ==
   [ij \in VarIdx(pts) |-> [k \in Lags(dir) |-> SymSlot(pts, PairsOfLag(G, k), ij[1], ij[2])]]
 AsymResultG(pts, dir, G, conv) ==
